@@ -12,7 +12,8 @@ import sys
 V = "/verif"
 # seeded changes whose own property check stays quiet because what breaks lies in a sibling property's domain
 # (index bases -> C19, unequal allocators -> C10): the sibling's quick check is run as well
-SIBLINGS = {"C01-r2-1": ["C19"], "C05-r2-1": ["C19"], "C06-r2-1": ["C19"], "C08-r2-1": ["C10"]}
+SIBLINGS = {"C01-r2-1": ["C19"], "C05-r2-1": ["C19"], "C06-r2-1": ["C19"], "C08-r2-1": ["C10"],
+            "C03-r3-2": ["C07"], "C11-r3-2": ["C09"], "C20-r3-2": ["C09"]}
 ids = sys.argv[1:] or sorted(os.listdir(os.path.join(V, "seeded")))
 for sid in ids:
     d = os.path.join(V, "seeded", sid)
